@@ -298,8 +298,10 @@ static ext2fs_generic_bitmap build_a(const struct ext2_bitmap_ops *ops)
 #ifdef NO_SPLIT_CB
 #define SPLIT_CB(fn, g) fn(g)
 #elif defined(GEN64_CB_ENUM)
-#define CB_CASE(n, fn, g) case n: BMA.cluster_bits = n; BMB.cluster_bits = n; fn(g); break;
-#define SPLIT_CB(fn, g) switch (BMA.cluster_bits) { \
+/* the handle is passed as a constant (NULL or &BMA) and the shift as a constant, so that neither the code nor the
+ * specification contains a symbolic shift distance */
+#define CB_CASE(n, fn, g) case n: BMA.cluster_bits = n; BMB.cluster_bits = n; fn((ext2fs_generic_bitmap)&BMA); break;
+#define SPLIT_CB(fn, g) if (!(g)) fn((ext2fs_generic_bitmap)0); else switch (BMA.cluster_bits) { \
 	CB_CASE(0, fn, g) CB_CASE(4, fn, g) \
 	default: CHECK(0, "cluster_bits outside {0, 4} is excluded by the assumption of this unit"); }
 #else
